@@ -1,12 +1,16 @@
 #!/bin/bash
-# run every stored seeded change against the quick check of its property; print one line each
+# run every stored seeded change against the quick check of its property; one line each.  seedall.sh [lanes]
 cd /verif
-for d in seeded/*/; do
-  id=$(basename $d)
-  [ -f $d/meta.json ] || continue
+lanes=${1:-4}
+one() {
+  d=$1; id=$(basename $d)
+  [ -f $d/meta.json ] || exit 0
   prop=$(python3 -c "import json;print(json.load(open('$d/meta.json'))['property'])")
-  python3 harness/seedcheck.py $d/patch.diff $prop 2>&1 | tail -1 | cut -c1-120
-done
+  p=$d/patch.diff; [ -f $d/patch_rebased.diff ] && p=$d/patch_rebased.diff
+  python3 harness/seedcheck.py $p $prop 2>&1 | tail -1 | cut -c1-120
+}
+export -f one
+ls -d seeded/*/ | grep -v own | xargs -P $lanes -I{} bash -c 'one {}'
 for p in seeded/own/*.diff; do
   prop=$(basename $p | cut -c1-3)
   python3 harness/seedcheck.py $p $prop 2>&1 | tail -1 | sed "s/^own/$(basename $p .diff)/" | cut -c1-140
